@@ -15,6 +15,12 @@ What is modelled, function by function:
   component > 255 bytes / path ≥ 4096 bytes = ENAMETOOLONG, a directory at the end = EISDIR on read).
   **Symbolic links are excluded**: `osResolve` is the purely lexical resolution, which is what the walk
   computes when no component is a symlink (`SophiaProofs.C19.read_reads_resolved`).
+* links: `Loader::get_resource` / `get_resource_from` / `get_graph` (as "strip the fragment, call `get`"),
+  `Resource::get_neighbour` (`to_iri`, same-document test, `loader.get_resource`) and the JSON-LD document
+  loader closure `get_graph` installs (`self.get(url)` + content-type test): every entry point of `Resource`
+  (`get_resource`, `get_any_resource`, `get_all_resources`, `get_resource_items`, `pred_*`, the typed
+  variants) funnels into `get_neighbour`.  `SophiaModel.Gen.LoaderSites` (regenerated) lists every file-system
+  call site of the crate: `SophiaProofs.C19.reads_only_in_get` pins it to the one `read` inside `get`.
 * `guard`: the repair of notes/fixes/C19-confine.diff (reject a remainder with a `..`/root component).
   `getW` is the code as written (no guard), `get'` the repaired code, `getCur` whichever of the two the
   extractor found in /repo — the driver runs `getCur`.
@@ -239,6 +245,41 @@ def getW (f : Features) : Cfg → FS → Str → Outcome := getG ⟨false, f⟩ 
 def get' (f : Features) : Cfg → FS → Str → Outcome := getG ⟨true, f⟩ 1
 /-- the code currently in /repo, as recognised by the extractor -/
 def getCur (f : Features) : Cfg → FS → Str → Outcome := getG ⟨Gen.LoaderExts.guardPresent, f⟩ 1
+
+/-! ### links followed in loaded data -/
+
+/-- `Loader::get_resource(iri)` = `get_resource_from(iri, iri.split('#').next())`, which strips the
+fragment again and calls `get_graph(base)`, whose first action is `self.get(base)` (which strips it a
+third time): the bytes a followed link yields are those of `get` on the IRI found in the data. -/
+def getResourceRead (g : Cfg → FS → Str → Outcome) (cfg : Cfg) (fs : FS) (iri : Str) : Outcome :=
+  g cfg fs (stripFragment (stripFragment iri))
+
+inductive Follow
+  /-- `to_iri` failed (`ResourceError::IriNotAbsolute`): nothing is read -/
+  | notAbsolute
+  /-- same base as the current document (or no base): a `Resource` on the graph already loaded -/
+  | sameDoc
+  /-- `self.loader.get_resource(iri)` -/
+  | loaded (o : Outcome)
+  deriving DecidableEq, Repr
+
+/-- `Resource::get_neighbour` on an IRI term `t` of a resource whose graph was loaded from `base`
+(`isAbs` = `sophia_iri::is_absolute_iri_ref`, a parameter: the theorems hold for every such test) -/
+def getNeighbour (isAbs : Str → Bool) (g : Cfg → FS → Str → Outcome) (cfg : Cfg) (fs : FS)
+    (base : Option Str) (t : Str) : Follow :=
+  if !isAbs t then .notAbsolute
+  else match base with
+    | some b => if stripFragment t ≠ b then .loaded (getResourceRead g cfg fs t) else .sameDoc
+    | none => .sameDoc
+
+def ldJson : Str := "application/ld+json".toList
+
+/-- the document loader `get_graph` hands to the JSON-LD processor:
+`let (content, ctype) = self.get(url)?; if ctype == "application/ld+json" { Ok(content) } else { Err(..) }` -/
+def ctxFetch (g : Cfg → FS → Str → Outcome) (cfg : Cfg) (fs : FS) (url : Str) : Option (Str × Str) :=
+  match g cfg fs url with
+  | .ok p d ct => if ct = ldJson then some (p, d) else none
+  | .err _ => none
 
 /-! ### confinement -/
 
